@@ -203,10 +203,10 @@ Definition refs_count (srcs : list source) : nat :=
      | TFree r => List.length (r_calls r) + List.length (r_imps r) + List.length (r_intfs r) + a
      end) acc (s_units s)) 0 srcs.
 
-(** rebuild the graph from the seed; [None] when the fuel did not suffice *)
-Definition rebuild (seed : nref) (st : state) : option state :=
-  let fuel := S (count_routines (st_srcs st) + refs_count (st_srcs st) + List.length (st_cache st)) in
-  match close fuel st [seed] [seed] [] with
+(** rebuild the graph from the seeds (Scheduler.seeds); [None] when the fuel did not suffice *)
+Definition rebuild (seed : list nref) (st : state) : option state :=
+  let fuel := S (count_routines (st_srcs st) + refs_count (st_srcs st) + List.length (st_cache st) + List.length seed) in
+  match close fuel st seed seed [] with
   | (ns, es, true) => Some (mk_state (st_srcs st) (st_cache st) ns es (st_removed st) (st_added st))
   | (_, _, false) => None
   end.
@@ -381,16 +381,19 @@ Definition dep_class (sfx msfx : string) (st : state) : bool :=
                              else if String.eqb (fst p) "" then ["#" ++ snd p ++ sfx]
                              else [derive_mod sfx msfx (fst p)]) g).
 
+(** the new name of a renamed graph kernel (items, planned dependencies and the scheduler's seed list follow) *)
+Definition dep_ren (sfx msfx : string) (st : state) (n : nref) : nref :=
+  match n with
+  | NProc sc r => if mem_p (sc, r) (proc_nodes st) && negb (is_driver r)
+                  then NProc (if String.eqb sc "" then "" else derive_mod sfx msfx sc) (r ++ sfx) else n
+  | _ => n
+  end.
+
 Definition apply_dep (sfx msfx : string) (st : state) : state :=
   let g := proc_nodes st in
   let srcs' := map (fun '(i, s) => if is_touched st i then mk_source (s_path s) (dep_units sfx msfx g (s_units s)) else s)
                    (combine (seq 0 (List.length (st_srcs st))) (st_srcs st)) in
-  let ren (n : nref) : nref :=
-      match n with
-      | NProc sc r => if mem_p (sc, r) g && negb (is_driver r)
-                      then NProc (if String.eqb sc "" then "" else derive_mod sfx msfx sc) (r ++ sfx) else n
-      | _ => n
-      end in
+  let ren := dep_ren sfx msfx st in
   mk_state srcs' (map (dep_entry sfx msfx st g) (st_cache st)) (st_nodes st) (st_edges st)
            (map (fun e => (ren (fst e), ren (snd e))) (st_removed st))
            (map (fun e => (ren (fst e), ren (snd e))) (st_added st)).
@@ -438,19 +441,21 @@ Definition wrap_class (msfx : string) (st : state) : bool :=
      end) g &&
   fresh_names st (flat_map (fun p => if String.eqb (fst p) "" && negb (is_driver (snd p)) then [snd p ++ msfx] else []) g).
 
+Definition wrap_ren (msfx : string) (st : state) (n : nref) : nref :=
+  match n with
+  | NProc "" r => match src_of_proc st "" r with
+                  | Some i => if mem_p ("", r) (proc_nodes st) && src_all_kernels st i then NProc (r ++ msfx) r else n
+                  | None => n
+                  end
+  | _ => n
+  end.
+
 Definition apply_wrap (msfx : string) (st : state) : state :=
   let g := proc_nodes st in
   let srcs' := map (fun '(i, s) => if is_touched st i
                                    then mk_source (s_path s) (wrap_units msfx (src_all_kernels st i) g (s_units s)) else s)
                    (combine (seq 0 (List.length (st_srcs st))) (st_srcs st)) in
-  let ren (n : nref) : nref :=
-      match n with
-      | NProc "" r => match src_of_proc st "" r with
-                      | Some i => if mem_p ("", r) g && src_all_kernels st i then NProc (r ++ msfx) r else n
-                      | None => n
-                      end
-      | _ => n
-      end in
+  let ren := wrap_ren msfx st in
   mk_state srcs' (map (wrap_entry msfx st) (st_cache st)) (st_nodes st) (st_edges st)
            (map (fun e => (ren (fst e), ren (snd e))) (st_removed st))
            (map (fun e => (ren (fst e), ren (snd e))) (st_added st)).
@@ -626,21 +631,39 @@ Definition transform (o : op) (st : state) : option state :=
   | ORem k => if all_internal st && negb (is_driver k) then Some (apply_rem k st) else None
   end.
 
-Definition step (disk : list source) (seed : nref) (st : state) (o : op) : option state :=
+(** Scheduler.rekey_item_cache also renames the entries of the seed list, element by element *)
+Definition next_seeds (o : op) (st : state) (seed : list nref) : list nref :=
+  match o with
+  | ODep sfx msfx => map (dep_ren sfx msfx st) seed
+  | OWrap msfx => map (wrap_ren msfx st) seed
+  | _ => seed
+  end.
+
+Definition step (disk : list source) (seed : list nref) (st : state) (o : op) : option state :=
   match transform o st with
-  | Some st1 => rebuild seed (discover disk st1)
+  | Some st1 => rebuild (next_seeds o st seed) (discover disk st1)
   | None => None
   end.
 
-Definition init (disk : list source) (seed : nref) : option state :=
+Definition init (disk : list source) (seed : list nref) : option state :=
   rebuild seed (discover disk (mk_state [] [] [] [] [] [])).
 
-Fixpoint run (disk : list source) (seed : nref) (st : state) (ops : list op) : option (list state) :=
+Fixpoint run (disk : list source) (seed : list nref) (st : state) (ops : list op) : option (list state) :=
   match ops with
   | [] => Some []
   | o :: r => match step disk seed st o with
-              | Some st' => match run disk seed st' r with Some l => Some (st' :: l) | None => None end
+              | Some st' => match run disk (next_seeds o st seed) st' r with Some l => Some (st' :: l) | None => None end
               | None => None
+              end
+  end.
+
+(** the seed list after a history *)
+Fixpoint seeds_after (disk : list source) (seed : list nref) (st : state) (ops : list op) : list nref :=
+  match ops with
+  | [] => seed
+  | o :: r => match step disk seed st o with
+              | Some st' => seeds_after disk (next_seeds o st seed) st' r
+              | None => seed
               end
   end.
 
@@ -697,7 +720,7 @@ Fixpoint chk_states (sts : list state) (os : list obs) : bool :=
   end.
 
 (** the whole history: initial state and the state after every step *)
-Definition chk_history (disk : list source) (seed : nref) (ops : list op) (o0 : obs) (os : list obs) : bool :=
+Definition chk_history (disk : list source) (seed : list nref) (ops : list op) (o0 : obs) (os : list obs) : bool :=
   match init disk seed with
   | Some st0 =>
       chk_state st0 o0 &&
@@ -745,7 +768,7 @@ Definition consistent_b (st : state) : bool := inv_b st && all_internal st && im
 
 (** correspondence term used by the check: the model reproduces every observed state AND every model state of the
     history satisfies the consistency statement *)
-Definition chk_history_full (disk : list source) (seed : nref) (ops : list op) (o0 : obs) (os : list obs) : bool :=
+Definition chk_history_full (disk : list source) (seed : list nref) (ops : list op) (o0 : obs) (os : list obs) : bool :=
   chk_history disk seed ops o0 os &&
   match init disk seed with
   | Some st0 => consistent_b st0 &&
